@@ -554,6 +554,7 @@ func (ospf *OSPFv2) DecodeFromBytes(data []byte, df gopacket.DecodeFeedback) err
 		return fmt.Errorf("OSPF Version 2 packet length %d exceeds data length %d", ospf.PacketLength, len(data))
 	}
 
+	ospf.Content = nil // packet types without a case below carry no content
 	switch ospf.Type {
 	case OSPFHello:
 		if len(data) < 44 {
